@@ -15,7 +15,10 @@
 (*     dir   : "sendrecv"|"sendonly"|"recvonly"|"inactive",                *)
 (*     mux   : BOOLEAN              a=rtcp-mux present,                    *)
 (*     setup : "actpass"|"active"|"passive"|"holdconn"|"none",             *)
-(*     port0 : BOOLEAN ]            m-line port 0 (section rejected)       *)
+(*     port0 : BOOLEAN,             m-line port 0 (section rejected)       *)
+(*     fmts  : Seq(STRING) ]        m-line formats of a non-RTP section     *)
+(*                                  ("webrtc-datachannel", "t38"); <<>> for *)
+(*                                  audio/video (their formats are pts)     *)
 (*                                                                         *)
 (* The specification does not say which answer is produced, only which     *)
 (* answers are valid: ValidAnswer(offer, mode, answer) is the conjunction  *)
@@ -86,6 +89,11 @@ SetupAcceptable(o, mode, a) ==
   mode = "WebRtc" =>
     \A i \in Both(o, a) : a.secs[i].setup \in Accepts(o.secs[i].setup)
 
+(* EXT (beyond the listed property, which speaks about payload types): the formats of a data / fax  *)
+(* section are ones the offer listed                                                               *)
+FmtSubset(o, a) ==
+  \A i \in Both(o, a) : a.secs[i].kind \notin RtpKinds => Range(a.secs[i].fmts) \subseteq Range(o.secs[i].fmts)
+
 RuleNames == {"SameCount", "SameKinds", "SameMids", "PtSubset", "RtxEcho", "ExtSubset", "ExtInjective", "DirCompatible",
               "MuxOffered", "BundleOffered", "SetupAcceptable"}
 
@@ -123,7 +131,7 @@ RejectAll(o) ==
                    dir |-> "inactive", mux |-> FALSE,
                    setup |-> (IF o.secs[i].setup = "none" THEN "none"
                               ELSE IF o.secs[i].setup = "passive" THEN "active" ELSE "passive"),
-                   port0 |-> TRUE]],
+                   port0 |-> TRUE, fmts |-> o.secs[i].fmts]],
     bundle |-> <<>> ]
 
 Reverse(d) == CASE d = "sendonly" -> "recvonly" [] d = "recvonly" -> "sendonly" [] OTHER -> d
@@ -142,6 +150,6 @@ Intersect(o, codecs, uris) ==
           ext |-> SelectSeq(s.ext, LAMBDA e : e[2] \in uris),
           dir |-> Reverse(s.dir), mux |-> s.mux,
           setup |-> (IF s.setup = "none" THEN "none" ELSE IF s.setup = "passive" THEN "active" ELSE "passive"),
-          port0 |-> (s.kind \in RtpKinds /\ prim = <<>>)]],
+          port0 |-> (s.kind \in RtpKinds /\ prim = <<>>), fmts |-> s.fmts]],
     bundle |-> o.bundle ]
 =============================================================================
